@@ -59,12 +59,21 @@ def err_shape(got, exps, o=None, t=None, K=None):
 
 def add_task(task):
     """task = (bindir, prop, K, durs, pairs, tag) with pairs = [(src ordinal, expected ordinal)]"""
-    bindir, prop, K, durs, pairs, tag = task
+    bindir, prop, K, durs, pairs, tag = task[:6]
+    # optional 7th element: calendar the result is to be PRINTED in (-f NAME);
+    # exposes internal state (lazy clamps, ywd "hang") the native output hides
+    OK_ = task[6] if len(task) > 6 else None
     sh = Shard()
     if not pairs:
         return sh
     lines = [ktext(K, o)[0] for o, _ in pairs]
-    argv = [str(bindir / "dadd")] + KARGS[K] + ["--"] + list(durs)
+    kargs = KARGS[K]
+    if OK_ is not None:
+        kargs = [a for a in kargs if a not in ("-f",)][:2] if K in ("ldn", "mdn") else list(kargs)
+        kargs = kargs + ["-f", OK_]
+        tag = tag + ">" + OK_
+    argv = [str(bindir / "dadd")] + kargs + ["--"] + list(durs)
+    KO = OK_ or K
     pos = 0
     guard = 0
     while pos < len(lines) and guard < 6:
@@ -77,7 +86,7 @@ def add_task(task):
             sh.check_san(r, "san", "add:%s:%s:san" % (K, tag))
         for k, got in enumerate(outs):
             o, t = pairs[pos + k]
-            exps = ktext(K, t)
+            exps = ktext(KO, t)
             cc = carry_class(o, t)
             sign = "-" if t < o else "+"
             if got in exps:
